@@ -222,6 +222,11 @@ func c01Plan(ctx *core.Ctx) []Scenario {
 				i++
 			}
 		}
+		// a session whose nonce shares sum to 2: R = (1/2)*G has an x coordinate with 11 leading zero bytes,
+		// the directed case for the fixed-width / padding clauses (a random r has a leading zero byte once in 256 runs)
+		scs = append(scs, Scenario{Proto: pump.EcSigning, N: k.t + 1, T: k.t, KeyN: k.keyN, MsgHex: hexOf(new(big.Int).Rand(rng, q)),
+			FullBytesLen: 32, Strategy: "fifo", Seed: ctx.Seed*1009 + int64(i) + 1, NonceSum: 2})
+		i++
 		// digests not below the curve order: refused before any message is sent
 		for j, rf := range refuse {
 			if !ctx.Thorough() && j > 0 && k.keyN != 5 {
